@@ -7,6 +7,7 @@ import (
 	"time"
 
 	proxyv1alpha1 "github.com/kubewharf/kubegateway/pkg/apis/proxy/v1alpha1"
+	"github.com/kubewharf/kubegateway/pkg/flowcontrols/util"
 )
 
 // VerifReconcileOnce runs one reconcile round (what the 2 s loop does).
@@ -19,3 +20,8 @@ func VerifNewAcquireResult(req *proxyv1alpha1.RateLimitAcquireRequest, result *p
 
 // VerifSetWaitAcquireTimeout shortens how long a request waits for the next acquire answer.
 func VerifSetWaitAcquireTimeout(d time.Duration) { waitAcquireTimeout = d }
+
+// VerifSetMeasuredRate sets the request rate the schema's meter reports (see util.VerifSetRate).
+func VerifSetMeasuredRate(w RemoteFlowControlWrapper, r float64) {
+	util.VerifSetRate(w.(*remoteWrapper).flowControlCache.meter, r)
+}
